@@ -275,9 +275,16 @@ class Replacer:
     """
 
     def __init__(self, base):
+        self.href = base
         self.base = self.extract_base(base)
 
     def __call__(self, uri):
+        basescheme, baselocation = urllib.parse.urlsplit(self.href)[:2]
+        if basescheme or baselocation:
+            # imported from another location: only the absolute URL
+            # keeps pointing to the same resource
+            return urllib.parse.urljoin(self.href, uri)
+
         scheme, location, path, query, fragment = urllib.parse.urlsplit(uri)
         if scheme or location or path.startswith('/') or not path:
             # keep anything absolute
